@@ -186,7 +186,7 @@ func (g *Gen) structType(d int) {
 	g.w("struct {")
 	n := g.R.Intn(4)
 	for i := 0; i < n; i++ {
-		if i > 0 || g.R.Bool() {
+		if i > 0 {
 			g.w("; ")
 		}
 		switch g.R.Intn(6) {
@@ -213,7 +213,7 @@ func (g *Gen) interfaceType(d int) {
 	g.w("interface {")
 	n := g.R.Intn(4)
 	for i := 0; i < n; i++ {
-		if i > 0 || g.R.Bool() {
+		if i > 0 {
 			g.w("; ")
 		}
 		switch g.R.Intn(5) {
@@ -378,6 +378,19 @@ func (g *Gen) funcLit(d int, c ectx) {
 	g.block(d-1, c.ind, nil)
 }
 
+// primaryNoNum: a primary expression that may be followed by '.': a numeric literal is parenthesised
+// (`1.x`, `0x1F.x` would be scanned as malformed floating-point literals)
+func (g *Gen) primaryNoNum(d int, c ectx) {
+	mark := g.sb.Len()
+	g.primary(d, c)
+	s := g.sb.String()
+	if mark < len(s) && (s[mark] >= '0' && s[mark] <= '9' || s[mark] == '.') {
+		tail := s[mark:]
+		g.sb.Reset()
+		g.sb.WriteString(s[:mark] + "(" + tail + ")")
+	}
+}
+
 // primary: operand possibly followed by selectors, indexes, calls ...
 func (g *Gen) primary(d int, c ectx) {
 	inner := ectx{ind: c.ind}
@@ -397,7 +410,7 @@ func (g *Gen) primary(d int, c ectx) {
 		g.w(")")
 	case 2:
 		g.feat("expr:selector")
-		g.primary(d-1, c)
+		g.primaryNoNum(d-1, c)
 		g.w("." + g.id())
 	case 3:
 		g.feat("expr:index")
@@ -455,7 +468,7 @@ func (g *Gen) primary(d int, c ectx) {
 		g.w(")")
 	case 7:
 		g.feat("expr:typeassert")
-		g.primary(d-1, c)
+		g.primaryNoNum(d-1, c)
 		g.w(".(")
 		g.typ(1)
 		g.w(")")
